@@ -1345,6 +1345,16 @@ impl<'a, V: VariationInfo> ValidationCtx<'a, V> {
     }
 
     fn validate_glyph_range(&mut self, range: &typed::GlyphRange) {
+        // with a glyph map the parser splits a hyphenated name that is not a glyph
+        // ('a-z') into a range of its own, also where it is the endpoint of an
+        // explicit range ('a - a-z'); such a range has no start/end token.
+        if range.iter().any(|item| item.kind() == Kind::GlyphRange) {
+            self.error(
+                range.range(),
+                "the start and end of a glyph range must be glyphs, not ranges",
+            );
+            return;
+        }
         let start = range.start();
         let end = range.end();
 
